@@ -124,10 +124,45 @@ def read_ndjson(path):
 
 
 def drive(binpath, sched_path, trace_path, timeout=1800):
-    p = subprocess.run([binpath, "drive", "--in", sched_path, "--out", trace_path],
-                       stdout=subprocess.PIPE, stderr=subprocess.STDOUT, text=True, timeout=timeout)
-    if p.returncode != 0:
-        raise ToolError("harness drive failed (%d): %s" % (p.returncode, p.stdout[-2000:]))
+    """Run the harness over a schedule.  If the code under test kills the process (a non-unwinding panic -> SIGABRT,
+    any other signal), that is data, not a tool failure: the fatal op gets a synthetic event with a "panic" field, the
+    rest of its case is dropped, and the run resumes at the next case."""
+    lines = [ln for ln in open(sched_path).read().split("\n") if ln.strip()]
+    pos, out, first = 0, [], True
+    while pos < len(lines):
+        sp = sched_path if first else sched_path + ".part"
+        tp = trace_path if first else trace_path + ".part"
+        if not first:
+            with open(sp, "w") as f:
+                f.write("\n".join(lines[pos:]) + "\n")
+        p = subprocess.run([binpath, "drive", "--in", sp, "--out", tp],
+                           stdout=subprocess.PIPE, stderr=subprocess.STDOUT, text=True, timeout=timeout)
+        if p.returncode == 0 and first:
+            return
+        got = []
+        if os.path.exists(tp):
+            raw = open(tp).read()
+            got = [ln for ln in raw.split("\n")[:-1] if ln.strip()] if not raw.endswith("\n") else [ln for ln in raw.split("\n") if ln.strip()]
+        out += got
+        if p.returncode == 0:
+            break
+        if p.returncode > 0:
+            raise ToolError("harness drive failed (%d): %s" % (p.returncode, p.stdout[-2000:]))
+        bad = pos + len(got)
+        if bad >= len(lines):
+            raise ToolError("harness killed by signal %d after the last op: %s" % (-p.returncode, p.stdout[-1000:]))
+        op = json.loads(lines[bad])
+        ev = dict(op)
+        ev["e"] = op.get("op")
+        ev["panic"] = "the process was killed by signal %d while executing this operation: %s" % (-p.returncode, (p.stdout or "")[-300:].replace("\n", " "))
+        ev["aborted"] = True
+        out.append(json.dumps(ev))
+        nxt = bad + 1
+        while nxt < len(lines) and json.loads(lines[nxt]).get("op") != "reset":
+            nxt += 1
+        pos, first = nxt, False
+    with open(trace_path, "w") as f:
+        f.write("\n".join(out) + "\n")
 
 
 # ---------------------------------------------------------------- cases
